@@ -184,6 +184,7 @@ let () =
         (try
           match parse line with
           | L [A "def"; A name; p] -> let q = proc p in Hashtbl.replace procs name q; Hashtbl.replace names q name; print_string "ok\n"
+          | L [A "tr"; p; x] -> print_string (sproc (tr_proc (sym x) (proc p)) ^ "\n")
           | L [A "pe"; p; x; lit] -> print_string (sproc (pe_proc (sym x) (expr lit) (proc p)) ^ "\n")
           | L [A "run"; p; inp] ->
               (match run (proc p) (input inp) with
